@@ -132,6 +132,20 @@ func (p *Program) handlersOf(d *Directive) {
 				}
 				return false
 			}, flowOpts{})
+			// a method value (m.wrap) arrives as a synthetic bound-method wrapper: the declared method is what returns
+			// the handler
+			for i := 0; i < len(mws); i++ {
+				if mws[i].Synthetic == "" {
+					continue
+				}
+				allInstrs(mws[i], func(in2 ssa.Instruction) {
+					if c2 := callOf(in2); c2 != nil && !c2.IsInvoke() {
+						if g := c2.StaticCallee(); g != nil && len(g.Blocks) > 0 && g.Synthetic == "" {
+							mws = append(mws, g)
+						}
+					}
+				})
+			}
 			for _, mw := range mws {
 				for _, rv := range returnValues(mw, 0) {
 					derives(rv, func(v ssa.Value) bool {
